@@ -18,8 +18,9 @@ EXTENDS Common, TLC, Json, IOUtils
 
 Rec == ndJsonDeserialize(IOEnv.TRACE)
 
-VARIABLES l, live, cfg, doff, cap, freed
-vars == <<l, live, cfg, doff, cap, freed>>
+VARIABLES l, live, cfg, doff, cap, freed,
+          vals     \* own_clones runs: how many arena values are alive (every thread starts with one); -1 = not tracked
+vars == <<l, live, cfg, doff, cap, freed, vals>>
 
 Has(r, f) == f \in DOMAIN r
 Viol(prop, pred, t, ok) == IF ok THEN TRUE ELSE PrintT(<<"VIOL", prop, pred, l, t>>)
@@ -64,7 +65,7 @@ EndCheck(e) ==
   /\ Viol("C02", "LiveDisjointAtEnd", 0,
           \A a, b \in DOMAIN live : a # b => Disjoint(Acc(live[a]), Acc(live[b])))
 
-Init == l = 1 /\ live = NoLive /\ cfg = [none |-> TRUE] /\ doff = 0 /\ cap = 0 /\ freed = 0
+Init == l = 1 /\ live = NoLive /\ cfg = [none |-> TRUE] /\ doff = 0 /\ cap = 0 /\ freed = 0 /\ vals = -1
 
 StepReset ==
   LET e == Rec[l] IN
@@ -74,6 +75,7 @@ StepReset ==
           /\ live' = SetupLive(e.setup) /\ doff' = e.obs.doff /\ cap' = e.obs.cap
      ELSE live' = NoLive /\ doff' = 0 /\ cap' = 0
   /\ cfg' = e.cfg /\ freed' = 0
+  /\ vals' = IF e.ok /\ "own_clones" \in DOMAIN e.cfg /\ e.cfg.own_clones THEN e.nthreads ELSE -1
   /\ l' = l + 1
 
 StepEv ==
@@ -82,6 +84,9 @@ StepEv ==
   /\ Check(live, e, doff, cap)
   /\ live' = Apply(live, e)
   /\ Viol("C13", "NoAccessAfterFree", e.t, freed = 0 \/ (e.ev = "ret" /\ e.op.k = "drop_arena"))
+  /\ vals' = IF vals < 0 \/ e.ev # "ret" THEN vals
+             ELSE IF e.op.k = "clone" THEN vals + 1
+             ELSE IF e.op.k \in {"drop_clone", "drop_arena"} THEN vals - 1 ELSE vals
   /\ UNCHANGED <<cfg, doff, cap, freed>>
   /\ l' = l + 1
 
@@ -92,27 +97,29 @@ StepUnmount ==
   /\ IF e.ev = "unmount"
      THEN Viol("C13", "FreedOnce", e.t, freed = 0) /\ freed' = freed + 1
      ELSE Viol("C13", "NoAccessAfterFree", e.t, freed = 0) /\ freed' = freed
-  /\ UNCHANGED <<live, cfg, doff, cap>>
+  /\ UNCHANGED <<live, cfg, doff, cap, vals>>
   /\ l' = l + 1
 
 StepEnd ==
   LET e == Rec[l] IN
   /\ e.ev \in {"end", "stuck"}
   /\ EndCheck(e)
+  \* the memory is released exactly when the last arena value has gone (and not before)
+  /\ (e.ev = "end" /\ vals >= 0) => Viol("C13", "MemoryReleasedExactlyWhenLastValueGoes", 0, (freed = 1) = (vals = 0))
   /\ (e.ev = "stuck") =>
         \A k \in 1..Len(e.x.threads) : Viol("C07", IF e.x.kind = "spin" THEN "CallNeverReturns" ELSE "StepBudgetExceeded", e.x.threads[k].t, FALSE)
-  /\ UNCHANGED <<live, cfg, doff, cap, freed>>
+  /\ UNCHANGED <<live, cfg, doff, cap, freed, vals>>
   /\ l' = l + 1
 
 \* the process died (abort / signal) while the arena was executing: it followed bytes that are not its own
 StepDied ==
   /\ Rec[l].ev = "died"
   /\ Viol("C02", "ProcessDied", 0, FALSE)
-  /\ UNCHANGED <<live, cfg, doff, cap, freed>>
+  /\ UNCHANGED <<live, cfg, doff, cap, freed, vals>>
   /\ l' = l + 1
 
 StepSkip == /\ Rec[l].ev \notin {"reset", "call", "ret", "end", "stuck", "died", "unmount", "acc", "zero"} /\ l' = l + 1
-            /\ UNCHANGED <<live, cfg, doff, cap, freed>>
+            /\ UNCHANGED <<live, cfg, doff, cap, freed, vals>>
 
 Next == l <= Len(Rec) /\ (StepReset \/ StepEv \/ StepEnd \/ StepDied \/ StepUnmount \/ StepSkip)
 Spec == Init /\ [][Next]_vars
